@@ -1,14 +1,21 @@
 import PV.C08.Fold
+import PV.C08.Whole
+import PV.C08.ReindentText
+import PV.C08.Paren
+import PV.Prog.Thm
 /-
-  PV.C08.Thm — "layout never changes the tree", the part that lives in the lexer.
+  PV.C08.Thm — "layout never changes the tree".
 
   The parser consumes only the token stream.  The theorems say: texts related by the layout rules of
   `Spec.LayoutEq` have the same token stream once ranges are erased (same tokens with the same payloads, same
   way of ending: end of input or the same kind of lexical error).  That equal range-erased token streams give
-  equal range-erased trees is NOT proved here (the LALRPOP automaton is not modelled); it is checked on every run
-  by the differential on the real parser (tools/props/c08.py, stream family `layout`).
+  equal range-erased trees is proved on the REFERENCE parser `PV.Prog.parseProgram` (last section); the LALRPOP
+  automaton itself is not modelled — it is tied to the reference parser by the PROG correspondence, and judged
+  directly on every run by the differential on the real parser (tools/props/c08.py, stream family `layout`).
 
-  Reading guide
+  Reading guide (second pass: see also `ReindentText.lean` — consistent re-indentation, `lex_reindent_invariant`;
+  `AtBol.lean` / `Whole.lean` — the line-start rules need the lexer-position hypothesis for the ORIGINAL text only;
+  `Paren.lean` — redundant parentheses on the expression reference parser; the end of this file — from tokens to trees)
     * `rule_*`                 one theorem per place-dependent rule, in SUFFIX form and unconditional: in a lexer
                                state satisfying the rule's side condition, the inserted layout text in front of
                                the remaining input does not change the remaining run.  Each is a statement about
@@ -127,20 +134,22 @@ example : LayoutEq asciiCfg [120, 10] [120, 32, 9, 10] := by
   · exact Runs.cons (o := ⟨[⟨.name [120], 0, 1⟩], 1, ⟨false, 0, [⟨0, 0⟩]⟩, false⟩) (by rfl) rfl (Runs.nil _ _)
   · intro c hc; simp at hc; rcases hc with rfl | rfl <;> decide
 
-/-- `x⏎y`  ~  `x⏎␠␠#c␍⏎y`  (a comment-only line, indented, ended by CRLF, at the start of line 2) -/
-example : LayoutEq asciiCfg [120, 10, 121] [120, 10, 32, 32, 35, 99, 13, 10, 121] := by
+/-- `x⏎y`  ~  `x⏎␠␠#c␍⏎y`  (a comment-only line, indented, ended by CRLF, at the start of line 2): only the run on
+    the ORIGINAL text is given -/
+theorem layoutEq_blankLine_example : LayoutEq asciiCfg [120, 10, 121] [120, 10, 32, 32, 35, 99, 13, 10, 121] := by
   have h1 : step asciiCfg .init [120, 10, 121] = .ok ⟨[⟨.name [120], 0, 1⟩], 1, ⟨false, 0, [⟨0, 0⟩]⟩, false⟩ := by rfl
   have h2 : step asciiCfg ⟨false, 0, [⟨0, 0⟩]⟩ [10, 121] = .ok ⟨[⟨.newline, 0, 1⟩], 1, ⟨true, 0, [⟨0, 0⟩]⟩, false⟩ := by rfl
-  have h1' : step asciiCfg .init [120, 10, 32, 32, 35, 99, 13, 10, 121] =
-      .ok ⟨[⟨.name [120], 0, 1⟩], 1, ⟨false, 0, [⟨0, 0⟩]⟩, false⟩ := by rfl
-  have h2' : step asciiCfg ⟨false, 0, [⟨0, 0⟩]⟩ [10, 32, 32, 35, 99, 13, 10, 121] =
-      .ok ⟨[⟨.newline, 0, 1⟩], 1, ⟨true, 0, [⟨0, 0⟩]⟩, false⟩ := by rfl
   refine .step (LayoutStep.blankLine (pre := [120, 10]) (post := [121]) (w := [32, 32]) (c := [35, 99])
     (e := [13, 10]) (st := ⟨true, 0, [⟨0, 0⟩]⟩) (ts := [.name [120], .newline])
-    ⟨by decide, ?_⟩ ⟨by decide, ?_⟩ rfl (by simp [BolBlank, measure]) (Or.inr ⟨[99], rfl, ?_⟩) .crlf (by intro h; cases h))
+    ⟨by decide, ?_⟩ rfl (by simp [BolBlank, measure]) (Or.inr ⟨[99], rfl, ?_⟩) .crlf (by intro h; cases h)
+    (by intro h; simp at h))
   · exact Runs.cons h1 rfl (Runs.cons h2 rfl (Runs.nil _ _))
-  · exact Runs.cons h1' rfl (Runs.cons h2' rfl (Runs.nil _ _))
   · intro c hc; simp at hc; subst hc; decide
+
+/-- … and the theorem applies to it -/
+example : eraseRanges (lex asciiCfg .module 0 [120, 10, 121]) =
+    eraseRanges (lex asciiCfg .module 0 [120, 10, 32, 32, 35, 99, 13, 10, 121]) :=
+  lex_layout_invariant asciiUp_ok rfl layoutEq_blankLine_example .module 0 (by decide) (by decide)
 
 /-- `f(a)` ~ `f(⏎a)`  (a line break inside brackets) -/
 example : LayoutEq asciiCfg [102, 40, 97, 41] [102, 40, 10, 97, 41] := by
@@ -168,5 +177,72 @@ example : eraseRanges (lex asciiCfg .module 0 [120, 61, 39, 39, 39, 97, 10, 98, 
     theorem is not vacuous in the other direction either) — an instance of the theorem -/
 example : eraseRanges (lex asciiCfg .module 0 [120, 10]) ≠ eraseRanges (lex asciiCfg .module 0 [121, 10]) := by
   decide
+
+/-! ## from tokens to trees
+
+  The reference parser for whole programs `PV.Prog.parseProgram` (written from `python.lalrpop`, tied to the generated
+  LR parser by the PROG correspondence streams) consumes the range-erased token stream only
+  (`PV.Prog.parseProgram_layout_free`: positions never matter).  Hence equal erased token streams give equal trees.
+  `conv` is the map from the lexer model's tokens to the parser's alphabet (string literals decoded, float numerals
+  converted; the one the PROG correspondence uses is `decodeTok` of `lean/Drv/Prog.lean` on the harness's token dump);
+  the corollaries hold for EVERY such map. -/
+
+/-- the parser's input for a lexed text: defined when the lexer accepted the text and every token converts -/
+def parserInput (conv : Tok → Option PV.Prog.PTok) : Option (List Tok × EndK) → Option (List PV.Prog.PTok)
+  | some (ts, .eof) => ts.mapM conv
+  | _ => none
+
+/-- text → tree on the models: lexer model (incl. the soft-keyword pass), token conversion, reference parser;
+    `none` = rejected -/
+def parseText (conv : Tok → Option PV.Prog.PTok) (cfg : Cfg) (pmode : PV.Prog.Mode) (mode : Mode) (start : Nat)
+    (src : List Nat) : Option PV.Prog.Mod :=
+  (parserInput conv (eraseRanges (lex cfg mode start src))).bind (PV.Prog.parseProgram pmode)
+
+/-- **Layout never changes the tree** (on the models): layout-equivalent texts are accepted alike and give the same
+    range-free tree. -/
+theorem layout_tree_invariant (conv : Tok → Option PV.Prog.PTok) {cfg : Cfg} (hup : UpOk cfg.up)
+    (hf : cfg.fullLexer = false) {a b : List Nat} (h : LayoutEq cfg a b) (pmode : PV.Prog.Mode) (mode : Mode)
+    (start : Nat) (ha : start + utf8Len a ≤ u32Max) (hb : start + utf8Len b ≤ u32Max) :
+    parseText conv cfg pmode mode start a = parseText conv cfg pmode mode start b := by
+  unfold parseText
+  rw [lex_layout_invariant hup hf h mode start ha hb]
+
+/-- the same for consistent re-indentation -/
+theorem reindent_tree_invariant (conv : Tok → Option PV.Prog.PTok) {cfg : Cfg} (hup : UpOk cfg.up)
+    (hf : cfg.fullLexer = false) {a b : List Nat} (h : Reindent cfg .init .init a b)
+    (ha0 : a.head? ≠ some 0xFEFF) (hb0 : b.head? ≠ some 0xFEFF) (pmode : PV.Prog.Mode) (mode : Mode)
+    (start : Nat) (ha : start + utf8Len a ≤ u32Max) (hb : start + utf8Len b ≤ u32Max) :
+    parseText conv cfg pmode mode start a = parseText conv cfg pmode mode start b := by
+  unfold parseText
+  rw [lex_reindent_invariant hup hf h ha0 hb0 mode start ha hb]
+
+/-- a conversion for the tokens of the examples: names, the keyword `if`, `:`, and the layout tokens -/
+def sampleConv : Tok → Option PV.Prog.PTok
+  | .name n => some (.e (.name n))
+  | .kw .If => some (.e (.kw .if))
+  | .op .Colon => some (.e (.op .colon))
+  | .newline => some .newline
+  | .indent => some .indent
+  | .dedent => some .dedent
+  | _ => none
+
+/-- `if x:⏎␠␠y⏎` and `if x:⏎⇥y⏎` give the same tree, and it is the `If` statement -/
+example : parseText sampleConv localCfg .module .module 0 [105, 102, 32, 120, 58, 10, 32, 32, 121, 10] =
+    parseText sampleConv localCfg .module .module 0 [105, 102, 32, 120, 58, 10, 9, 121, 10] :=
+  reindent_tree_invariant sampleConv localUp_ok rfl reindent_example (by decide) (by decide) .module .module 0
+    (by decide) (by decide)
+
+example : parseText sampleConv localCfg .module .module 0 [105, 102, 32, 120, 58, 10, 9, 121, 10] =
+    some (.module [.if (.name [120]) [.expr (.name [121])] []]) := by rfl
+
+/-- `x⏎` and `x␠⇥⏎` (trailing blanks) give the same tree -/
+example : parseText sampleConv asciiCfg .module .module 0 [120, 10] =
+    parseText sampleConv asciiCfg .module .module 0 [120, 32, 9, 10] := by
+  refine layout_tree_invariant sampleConv asciiUp_ok rfl ?_ .module .module 0 (by decide) (by decide)
+  refine .step (LayoutStep.blanks (pre := [120]) (post := [10]) (w := [32, 9])
+    (st := ⟨false, 0, [⟨0, 0⟩]⟩) (ts := [.name [120]]) ⟨by decide, ?_⟩ ⟨by decide, ?_⟩ rfl ?_)
+  · exact Runs.cons (o := ⟨[⟨.name [120], 0, 1⟩], 1, ⟨false, 0, [⟨0, 0⟩]⟩, false⟩) (by rfl) rfl (Runs.nil _ _)
+  · exact Runs.cons (o := ⟨[⟨.name [120], 0, 1⟩], 1, ⟨false, 0, [⟨0, 0⟩]⟩, false⟩) (by rfl) rfl (Runs.nil _ _)
+  · intro c hc; simp at hc; rcases hc with rfl | rfl <;> decide
 
 end PV.C08
